@@ -12,7 +12,7 @@ import (
 func init() { Registry["C16"] = checkC16 }
 
 func checkC16(p *core.Prog, r *core.Report) {
-	r.Explanation = "Decides structural necessary conditions of state-preserving compaction: (R1) the replacement snapshot is published (rewrite.aof.tmp renamed into place) before any compaction input is removed, and during a compaction files are removed only in its commit step; (R2) compactions are serialised by a test-and-set of isRewriting under the Aof mutex, cleared again on every exit (deferred function); (R3) an append file becomes a compaction input only if its index is strictly behind the current append file's (wrap-aware); (R4) the compaction callback drops a record only when its database is gone or LockDB.HasLock says the hold no longer exists - every other record is appended, with its value blob iff it announces one; (R5) the commit step runs only after the load returned no error, and the temporary file is flushed and closed before that; (R6) replay quiescence - the condition the start-up compaction waits for - is decided (flush waiters released, WaitFlushAofChannel returning without waiting) only on paths that read the replay channels' queue counters, because a channel that was handed records but has not woken up yet is not in the active count (a real defect found by this rule's subject was repaired). NOT decided: equality of the recovered state before/after, appends racing a compaction, every intermediate directory image."
+	r.Explanation = "Decides structural necessary conditions of state-preserving compaction: (R1) the replacement snapshot is published (rewrite.aof.tmp renamed into place) before any compaction input is removed, and during a compaction files are removed only in its commit step; (R2) compactions are serialised by a test-and-set of isRewriting under the Aof mutex, cleared again on every exit (deferred function); (R3) an append file becomes a compaction input only if its index is strictly behind the current append file's (wrap-aware); (R4) the compaction callback drops a record only when its database is gone or LockDB.HasLock says the hold no longer exists - every other record is appended, with its value blob iff it announces one; (R5) the commit step runs only after the load returned no error, and the temporary file is flushed and closed before that; (R6) replay quiescence - the condition the start-up compaction waits for - is decided (flush waiters released, WaitFlushAofChannel returning without waiting) only on paths that read the replay channels' queue counters, because a channel that was handed records but has not woken up yet is not in the active count (a real defect found by this rule's subject was repaired); (R7) every list of log files built from FindAofFiles puts the snapshot before the append files (the list is the read and re-write order). NOT decided: equality of the recovered state before/after, appends racing a compaction, every intermediate directory image."
 	r.Assumptions = []string{"Go type checker, go/ssa and VTA call graph are correct for /repo", "os.Rename replaces its target atomically"}
 	c16R1(p, r)
 	c16R2(p, r)
@@ -20,6 +20,7 @@ func checkC16(p *core.Prog, r *core.Report) {
 	c16R4(p, r)
 	c16R5(p, r)
 	c16R6(p, r)
+	logFileOrderRule(p, r, "C16/R7")
 }
 
 // reachesRemove: does fn (transitively, by static calls in the module) call os.Remove / os.RemoveAll?
@@ -452,6 +453,96 @@ func c16R6(p *core.Prog, r *core.Report) {
 		ex.Run(fn, nil)
 		if ex.Imprecise != "" {
 			r.Fail("C16/R6 %s: %s", name, ex.Imprecise)
+		}
+	}
+}
+
+// logFileOrderRule (C16/R7, shared as C07/R6): the log is a sequence: the
+// compacted snapshot rewrite.aof first, then the append files by increasing
+// index. Every function that builds a list of log files from FindAofFiles -
+// start-up load, compaction input, full transfer to a follower - must put the
+// snapshot in front of the append files: the list is the replay order, and the
+// compaction writes its output in the order it reads, so a snapshot read after
+// newer append files re-applies old depths and values over newer ones.
+func logFileOrderRule(p *core.Prog, r *core.Report, rule string) {
+	r.Rule(rule, "every list of log files built from FindAofFiles puts the snapshot (rewrite.aof) before the append files on every path", 3)
+	find := mustFunc(p, r, "server.(*Aof).FindAofFiles")
+	if find == nil {
+		return
+	}
+	for _, fn := range p.FuncsIn("server") {
+		if fn.Blocks == nil || fn == find {
+			continue
+		}
+		calls := false
+		for _, b := range fn.Blocks {
+			for _, ins := range b.Instrs {
+				if core.StaticCallee(ins) == find {
+					calls = true
+				}
+			}
+		}
+		if !calls {
+			continue
+		}
+		name := core.FuncName(fn)
+		both, bad := false, false
+		ex := core.NewExplorer(p, core.Hooks{
+			Instr: func(x *core.X) {
+				if !x.Top() {
+					return
+				}
+				v := ""
+				switch t := x.Ins.(type) {
+				case *ssa.Store:
+					// append(list, x) stores x into the variadic argument array first
+					ia, ok := t.Addr.(*ssa.IndexAddr)
+					if !ok {
+						return
+					}
+					al, ok := ia.X.(*ssa.Alloc)
+					if !ok || al.Comment != "varargs" {
+						return
+					}
+					v = core.Plain(x.Canon(t.Val).S)
+				case *ssa.Call:
+					// append(list, files...)
+					bi, ok := t.Common().Value.(*ssa.Builtin)
+					if !ok || bi.Name() != "append" || len(t.Common().Args) < 2 {
+						return
+					}
+					v = core.Plain(x.Canon(t.Common().Args[1]).S)
+					if !strings.Contains(v, "FindAofFiles(") {
+						return
+					}
+				default:
+					return
+				}
+				switch {
+				case strings.Contains(v, "FindAofFiles(") && strings.Contains(v, "#1"):
+					if x.Get("files") == "1" {
+						both = true
+						if !bad {
+							bad = true
+							r.Violate(rule, name+": log file list order", x.Pos(), "the snapshot rewrite.aof is appended to the list after append files: the list is the read / replay order, so older snapshot records are applied (and re-written by the compaction) after newer append-file records - depths and values regress", x.St.Trace)
+						}
+					}
+					x.Set("snap", "1")
+				case strings.Contains(v, "FindAofFiles(") && strings.Contains(v, "#0"):
+					if x.Get("snap") == "1" {
+						both = true
+					}
+					x.Set("files", "1")
+				}
+			},
+		})
+		ex.NoHist = true
+		ex.Run(fn, nil)
+		if ex.Imprecise != "" {
+			r.Fail("%s %s: %s", rule, name, ex.Imprecise)
+		}
+		if both && !bad {
+			r.Hold(rule, name+": log file list order", p.Pos(fn.Pos()), "snapshot first")
 		}
 	}
 }
